@@ -522,6 +522,8 @@ fn concat_parts(parts: Vec<Expr>, attr_ptr: &MySyntaxNodePtr) -> Expr {
 fn call_to_string(value: Expr, ty: Option<&ast::TypeExpr>, attr_ptr: &MySyntaxNodePtr) -> Expr {
     if matches!(ty, Some(ast::TypeExpr::TString)) {
         value
+    } else if let Some(builtin) = ty.and_then(primitive_to_string_fn) {
+        call_function(builtin, vec![value], attr_ptr)
     } else {
         Expr::ECall {
             func: Box::new(Expr::EField {
@@ -554,15 +556,7 @@ fn call_to_json(value: Expr, ty: Option<&ast::TypeExpr>, attr_ptr: &MySyntaxNode
         | Some(ast::TypeExpr::TUint32)
         | Some(ast::TypeExpr::TUint64)
         | Some(ast::TypeExpr::TFloat32)
-        | Some(ast::TypeExpr::TFloat64) => Expr::ECall {
-            func: Box::new(Expr::EField {
-                expr: Box::new(value),
-                field: AstIdent::new(TO_STRING_FN),
-                astptr: *attr_ptr,
-            }),
-            args: Vec::new(),
-            astptr: *attr_ptr,
-        },
+        | Some(ast::TypeExpr::TFloat64) => call_to_string(value, ty, attr_ptr),
         // Unit serializes as null
         Some(ast::TypeExpr::TUnit) => Expr::EString {
             value: "null".to_string(),
@@ -578,6 +572,25 @@ fn call_to_json(value: Expr, ty: Option<&ast::TypeExpr>, attr_ptr: &MySyntaxNode
             args: Vec::new(),
             astptr: *attr_ptr,
         },
+    }
+}
+
+/// Only `int32` has the inherent method `.to_string()`; the other primitives
+/// are rendered by their `<type>_to_string` builtin.
+fn primitive_to_string_fn(ty: &ast::TypeExpr) -> Option<&'static str> {
+    match ty {
+        ast::TypeExpr::TUnit => Some("unit_to_string"),
+        ast::TypeExpr::TBool => Some("bool_to_string"),
+        ast::TypeExpr::TInt8 => Some("int8_to_string"),
+        ast::TypeExpr::TInt16 => Some("int16_to_string"),
+        ast::TypeExpr::TInt64 => Some("int64_to_string"),
+        ast::TypeExpr::TUint8 => Some("uint8_to_string"),
+        ast::TypeExpr::TUint16 => Some("uint16_to_string"),
+        ast::TypeExpr::TUint32 => Some("uint32_to_string"),
+        ast::TypeExpr::TUint64 => Some("uint64_to_string"),
+        ast::TypeExpr::TFloat32 => Some("float32_to_string"),
+        ast::TypeExpr::TFloat64 => Some("float64_to_string"),
+        _ => None,
     }
 }
 
